@@ -342,10 +342,17 @@ func (s *Stack) ForEach(expr string, fn func(index int, value any) error) error 
 		sort.Slice(keys, func(a, b int) bool {
 			return mapKeyLess(keys[a], keys[b])
 		})
-		for i, key := range keys {
-			if err := fn(i, rv.MapIndex(key).Interface()); err != nil {
+		i := 0
+		for _, key := range keys {
+			val := rv.MapIndex(key)
+			if !val.IsValid() {
+				// a NaN key is never found again: nobody can read this entry
+				continue
+			}
+			if err := fn(i, val.Interface()); err != nil {
 				return err
 			}
+			i++
 		}
 		return nil
 	}
